@@ -87,8 +87,26 @@ def run(ctx):
             ctx.violation("c05-entry-after-logout", "the session's store entry exists after the logout answered success (in-flight read scenario)", d)
         if not d["later_done"]:
             ctx.violation("c05-later-request-stuck", "a request arriving after the logout never completed", d)
-    ctx.evals += n
-    ctx.nontrivial += n
+    # configuration drift between replicas (another client id configured on the replica that serves the logout)
+    nd = 0
+    for line in open(pre + ".obs"):
+        d = json.loads(line)
+        if d.get("kind") != "drift":
+            continue
+        nd += 1
+        lo = d["logout_outcome"]
+        if not d["logout_done"] or lo[:2] != [2, LOGOUT_OK[d["logout"]]]:
+            continue
+        if d["entry_exists_at_end"]:
+            ctx.violation("c05-entry-after-logout", "the session's store entry exists after a logout answered success at a replica configured with another client id "
+                          "(the cookie's ticket names the entry; the logout must delete that entry)", d)
+        for o in d["later_outcomes"]:
+            if authenticated(o) or o[0] == 3 or (d["later"] == "f" and o[:2] == [2, 204]):
+                ctx.violation("c05-authenticated-after-logout", "the old cookie is still accepted after a logout answered success at a replica configured with another client id", d)
+                break
+    ctx.extra["replica_configuration_drift_scenarios"] = nd
+    ctx.evals += n + nd
+    ctx.nontrivial += n + nd
     ctx.extra["inflight_read_scenarios"] = n
     ctx.rule += "; plus %d scenarios {first request kind} x {logout variant on the other replica} x {later request kind} x {standalone, SSO server} with one store read executed but undelivered across the logout" % n
 
